@@ -57,6 +57,8 @@ def run(ctx):
     rule_mixed(ctx, F)
     import c03
     c03.rule_flag(ctx, F)   # representation independence needs a truthful `compressed` flag (as_flat_slice fast paths)
+    import c02
+    c02.rule_seqeq(ctx, F)  # label sequences of different lengths are never equal (zip() stops at the shorter one)
 
 
 # ---------------------------------------------------------------------------
@@ -427,6 +429,22 @@ def _fold_calls(F, b, depth=0, seen=None):
                     lower.add("to_ascii_lowercase")
                 if "to_ascii_uppercase" in a[3]:
                     upper.add("to_ascii_uppercase")
+        # a crate-local octet function (called, or handed to an iterator adaptor) that folds case by hand: decided over all
+        # 256 octets -- it is a lower-casing primitive only if it agrees with u8::to_ascii_lowercase everywhere
+        for nm in [t["fn"], t["res"]] + [a[3] for a in t["args"] if a[0] == "k" and a[3]]:
+            cb = F.bodies.get(nm) if nm else None
+            if cb is None or cb.nargs != 1 or cb.path in seen:
+                continue
+            tab = _octet_table(cb)
+            if tab is None or not all(isinstance(x, int) and not isinstance(x, bool) for x in tab):
+                continue
+            if tab == list(range(256)):
+                continue
+            if tab == _LOWER_TABLE:
+                lower.add("%s (= to_ascii_lowercase on all 256 octets)" % nm.split("::")[-1])
+            else:
+                diff = [o for o in range(256) if tab[o] != _LOWER_TABLE[o]]
+                upper.add("%s (differs from to_ascii_lowercase at octets %s)" % (nm.split("::")[-1], ", ".join("0x%02X" % o for o in diff[:6])))
         if depth < 2:
             for nm in (t["res"], t["fn"]):
                 cb = F.bodies.get(nm) if nm else None
@@ -443,7 +461,27 @@ def _fold_calls(F, b, depth=0, seen=None):
     return lower, upper
 
 
+_LOWER_TABLE = [o + 32 if 0x41 <= o <= 0x5A else o for o in range(256)]
+_OCTET_TABLES = {}
+
+
+def _octet_table(cb):
+    from rulelib import octet_fn_table
+    if cb.path not in _OCTET_TABLES:
+        try:
+            _OCTET_TABLES[cb.path] = octet_fn_table(cb) if re.match(r"^&?u8$", cb.locals[1].replace(" ", "")) and cb.locals[0] == "u8" else None
+        except Exception:
+            _OCTET_TABLES[cb.path] = None
+    return _OCTET_TABLES[cb.path]
+
+
 FOLD_FNS = [
+    # character strings compare, order and hash without regard to ASCII case; their canonical form is verbatim
+    ("<base::charstr::CharStr<T> as core::cmp::PartialEq<U>>::eq", True),
+    ("<base::charstr::CharStr<T> as core::cmp::PartialOrd<U>>::partial_cmp", True),
+    ("<base::charstr::CharStr<T> as core::cmp::Ord>::cmp", True),
+    ("<base::charstr::CharStr<T> as core::hash::Hash>::hash", True),
+    ("<base::charstr::CharStr<T> as base::cmp::CanonicalOrd<base::charstr::CharStr<U>>>::canonical_cmp", False),
     ("<base::name::label::Label as core::cmp::PartialEq<T>>::eq", True),
     ("<base::name::label::Label as core::cmp::Ord>::cmp", True),
     ("<base::name::label::Label as core::hash::Hash>::hash", True),
@@ -457,9 +495,14 @@ FOLD_FNS = [
 ]
 
 
+def _short(p):
+    m = re.match(r"^<([\w:]+?)(<.*?>)? as .*>::(\w+)$", p)
+    return "%s::%s" % (m.group(1).split("::")[-1], m.group(3)) if m else "::".join(p.split("::")[-2:])
+
+
 def rule_fold(ctx, F):
     R = "C04.fold"
-    ctx.floor(R, 8)
+    ctx.floor(R, 13)
     for p, must in FOLD_FNS:
         bs = [b for q, b in F.bodies.items() if q == p or q.startswith(p.replace("::compose_canonical", "::compose_canonical::<"))]
         if not bs:
@@ -470,15 +513,15 @@ def rule_fold(ctx, F):
         lo, up = _fold_calls(F, b)
         if not must:
             ctx.ob(R, b, "compares the octets as they are (no case folding)", not lo and not up,
-                   "label %s is the case-sensitive octet order of the wire form but reaches the folding primitive(s) %s: names "
+                   "%s is the case-sensitive octet order of the wire form but reaches the folding primitive(s) %s: values "
                    "that the canonical form writes verbatim compare equal (or in the wrong order) when they differ in case"
-                   % (p.split("::")[-1], sorted(lo | up)))
+                   % (_short(p), sorted(lo | up)))
             continue
         ok = bool(lo) and not up
         ctx.ob(R, b, "folds case with ASCII lower-casing only", ok,
-               "label %s must fold case with the lower-casing primitives the canonical wire form uses "
+               "%s must fold case exactly as u8::to_ascii_lowercase does (what equality and the canonical wire form use) "
                "(found lower=%s upper=%s): an order/hash folded differently disagrees with the canonical "
-               "form for octets between 'Z' and 'a'" % (p.split("::")[-1], sorted(lo), sorted(up)))
+               "form for octets between 'Z' and 'a'" % (_short(p), sorted(lo), sorted(up)))
     # crate-wide: no upper-casing primitive inside any Eq/Ord/Hash/CanonicalOrd impl of base/rdata
     n = 0
     for im in F.impls:
